@@ -100,16 +100,18 @@ def render_mt(case):
 
 def gen_case(rng, idx, cplx, sym):
     n = rng.randint(1, 6)
+    # general (unsymmetric-storage) files may be rectangular: a third of them have nrow != ncol
+    m = n if (sym != "U" or rng.random() < 0.66) else rng.choice([x for x in range(1, 8) if x != n])
     ents = []
     for j in range(1, n + 1):
-        rows = sorted(r for r in range(1, n + 1) if rng.random() < 0.5 and (sym == "U" or r >= j))
+        rows = sorted(r for r in range(1, m + 1) if rng.random() < 0.5 and (sym == "U" or r >= j))
         if not rows:
-            rows = [j]
+            rows = [min(j, m)]
         for r in rows:
             if sym == "Z" and r == j:
                 continue
             ents.append([r, j, 128 * rng.randint(-40, 40) or 128, (128 * rng.randint(-20, 20)) if cplx else 0])
-    return {"id": idx, "m": n, "n": n, "ent": ents, "cplx": cplx, "sym": sym}
+    return {"id": idx, "m": m, "n": n, "ent": ents, "cplx": cplx, "sym": sym}
 
 
 def main(tier):
